@@ -754,6 +754,10 @@ fn main() {
     // leading letters), through the four operators and through best_match
     {
         let mut tails: Vec<String> = TOKENS.iter().map(|s| s.to_string()).collect();
+        // what a version looks like when a file name was passed for a package name
+        for x in [".tgz", ".tbz", ".txz", ".tzst", ".tar.gz", ".tar", ".orig", ".rej", "~", ".sig", ".tmp", ".tgz.sig", "tgz", "tbz"] {
+            tails.push(x.to_string());
+        }
         for x in ["b", "beta", "be", "bet", "a", "alpha", "al", "r", "rc", "rc1", "p", "pl", "pre", "pr", "n", "nb", "nb1", "nb2", "0b", "0beta", "0beta1", "1a", "1alpha", "", "0", "00", "1", "2", "10", ".", ".0", ".1", "_", "x", "z"] {
             tails.push(x.to_string());
         }
